@@ -374,6 +374,10 @@ pub fn build_history(prefix: &[bitcoin::Block], l: usize, choices: &Choices) -> 
     }
     let g = choices[b * (SLOTS + 1) + SLOTS] as usize;
     let cb = build_coinbase(g, height, fees, prefix, 0)?;
+    if COINBASE_SHAPES[g] == "duplicate-of-target" {
+      // the duplicate recreates the target's outpoint, which can be spent again
+      spent.remove(&OutPoint { txid: cb.compute_txid(), vout: 0 });
+    }
     rendered.push(json!({"height": height, "coinbase": COINBASE_SHAPES[g], "txs": names}));
     let mut all = vec![cb];
     all.extend(txs);
@@ -383,6 +387,84 @@ pub fn build_history(prefix: &[bitcoin::Block], l: usize, choices: &Choices) -> 
 }
 
 pub fn exec(w: &mut Worker, cfg: &IndexCfg, l: usize, choices: &Choices) -> Exec {
+  exec_mode(w, cfg, l, choices, false)
+}
+
+/// (slot 0, slot 1, coinbase shape) per block; "" = default
+pub type DenseSpec = &'static [(&'static str, &'static str, &'static str)];
+
+/// Hand-picked 3-block histories with many deviations; each runs with update() per block and
+/// with one update() for all three blocks (one commit).
+pub const DENSE: &[(&str, DenseSpec)] = &[
+  ("dup-then-spend", &[("", "", "duplicate-of-target"), ("spend-dup-target", "", "full"), ("fee1000", "", "underpay-1")]),
+  ("spend-then-dup-twice", &[("spend-dup-target", "fee1000", "duplicate-of-target"), ("all-to-fee", "", "duplicate-of-target"), ("spend-dup-target", "split-uneven", "claim-nothing")]),
+  ("lost-in-every-block", &[("cb-first-sat-off", "fee1000", "underpay-1"), ("cb-all-to-fee", "opreturn-data-fee", "claim-nothing"), ("all-to-fee", "", "underpay-fees-and-half")]),
+  ("dense-1", &[("cb-first-sat-off", "fee1000", "underpay-1"), ("spend-prev0-fee", "all-to-fee", "split-two"), ("split-uneven", "merge-prev0-prev1", "duplicate-of-target")]),
+  ("dense-2", &[("spend-dup-target", "opreturn-with-value", "full"), ("cb+own-mostly-fee", "zero-first-output", "duplicate-of-target"), ("to-empty-script", "own+prev0-swap-order", "underpay-fees-and-half")]),
+  ("dense-3", &[("2to3-unaligned", "merge-prev0-prev1", "three-way-1sat-first"), ("cb-all-to-fee", "", "claim-nothing"), ("opreturn-data-fee", "split-uneven", "zero-then-full")]),
+];
+
+pub fn dense_choices(spec: DenseSpec) -> Choices {
+  let t = |n: &str| if n.is_empty() { 0 } else { (TEMPLATES.iter().position(|t| t.name == n).unwrap_or_else(|| panic!("unknown template {n}")) + 1) as u8 };
+  let c = |n: &str| if n.is_empty() { 0 } else { COINBASE_SHAPES.iter().position(|s| *s == n).unwrap_or_else(|| panic!("unknown shape {n}")) as u8 };
+  spec.iter().flat_map(|(a, b, g)| [t(a), t(b), c(g)]).collect()
+}
+
+fn run_dense(property: &'static str, cfgs: &[IndexCfg], report: &mut Report) -> (u64, BTreeSet<String>) {
+  let mut jobs: Vec<(usize, usize, bool)> = Vec::new();
+  for ci in 0..cfgs.len() {
+    for di in 0..DENSE.len() {
+      for batch in [false, true] {
+        jobs.push((ci, di, batch));
+      }
+    }
+  }
+  let (results, _) = util::par_map(
+    jobs.len(),
+    None,
+    |id| Worker::new(500 + id, 3),
+    |w, i| {
+      let (ci, di, batch) = jobs[i];
+      util::catch(|| exec_mode(w, &cfgs[ci], 3, &dense_choices(DENSE[di].1), batch))
+    },
+  );
+  let mut states = BTreeSet::new();
+  let mut n = 0;
+  let mut outcomes: BTreeMap<String, String> = BTreeMap::new();
+  for (i, r) in results.into_iter().enumerate() {
+    let (ci, di, batch) = jobs[i];
+    let name = DENSE[di].0;
+    let tag = format!("{name}@{}{}", cfgs[ci].label(), if batch { "/one-update" } else { "/per-block" });
+    match r {
+      Some(Ok(e)) if !e.disabled => {
+        n += 1;
+        states.extend(e.states.iter().cloned());
+        outcomes.insert(tag.clone(), e.outcome.clone());
+        for (prop, class, what) in e.violations {
+          let (prop, class) = if prop == "C16" && class.starts_with("update/") && property != "C16" { (property.to_string(), format!("index-stuck/{class}")) } else { (prop, class) };
+          if prop == property {
+            report.violation(class, format!("[{tag}] {what}"), json!({"suite": "sats-dense", "dense": name, "cfg": cfgs[ci].label(), "batch": batch, "history": e.rendered}));
+          }
+        }
+      }
+      Some(Ok(_)) => {
+        println!("MACHINERY: dense history {tag} is disabled");
+        report.violation(format!("{property}/machinery-dense-disabled"), format!("dense history {tag} cannot be built"), json!({}));
+      }
+      Some(Err(p)) => {
+        println!("MACHINERY: harness panic on dense history {tag}: {p}");
+        report.violation(format!("{property}/machinery-panic"), format!("harness panicked on dense history {tag}: {p}"), json!({}));
+      }
+      None => {}
+    }
+  }
+  report.set("sats.dense.executions", n);
+  report.set("sats.dense.outcomes", json!(outcomes));
+  (n, states)
+}
+
+/// `batch`: all enumerated blocks are indexed by ONE update() call, audited once at the end.
+pub fn exec_mode(w: &mut Worker, cfg: &IndexCfg, l: usize, choices: &Choices, batch: bool) -> Exec {
   let mut e = Exec::default();
   w.restore_prefix();
   let prefix = w.prefix_blocks.clone();
@@ -415,10 +497,14 @@ pub fn exec(w: &mut Worker, cfg: &IndexCfg, l: usize, choices: &Choices) -> Exec
   };
 
   let mut feats: BTreeSet<&'static str> = BTreeSet::new();
-  for txs in blocks {
+  let nblocks = blocks.len();
+  for (bi, txs) in blocks.into_iter().enumerate() {
     w.world.push_block(txs);
     let block = w.world.blocks.last().unwrap().clone();
     model.apply_block(&block);
+    if batch && bi + 1 < nblocks {
+      continue;
+    }
     match util::catch(|| index.update()) {
       Ok(Ok(())) => {}
       Ok(Err(err)) => {
@@ -431,6 +517,24 @@ pub fn exec(w: &mut Worker, cfg: &IndexCfg, l: usize, choices: &Choices) -> Exec
       }
     }
     e.blocks += 1;
+    if std::env::var("VDEBUG").is_ok() {
+      println!("--- after height {}", model.blocks - 1);
+      for (op, r) in &model.utxo {
+        if r.iter().any(|(s, _)| *s >= 25_000_000_000) {
+          println!("  model {op} {}", fmt_ranges(r));
+        }
+      }
+      if let Ok(d) = Dump::take(&index) {
+        for op in d.utxo_outpoints() {
+          if let Some(r) = index.list(op).ok().flatten()
+            && r.iter().any(|(s, _)| *s >= 25_000_000_000)
+          {
+            println!("  index {op} {}", fmt_ranges(&r));
+          }
+        }
+      }
+      println!("  rare {:?}", index.rare_sat_satpoints().unwrap_or_default().iter().filter(|(s, _)| s.0 >= 25_000_000_000).map(|(s, p)| format!("{}→{}", s.0, p)).collect::<Vec<_>>());
+    }
     match util::catch(|| audit(&index, &model, cfg, &mut e, &mut feats)) {
       Ok(Some(hash)) => e.states.push(hash),
       Ok(None) => {}
@@ -484,9 +588,11 @@ fn audit(
     if index_ops != model_ops {
       let missing: Vec<_> = model_ops.difference(&index_ops).take(3).collect();
       let extra: Vec<_> = index_ops.difference(&model_ops).take(3).collect();
+      // a spent output still listed, where that outpoint had been created twice by a duplicate txid
+      let only_recreated = missing.is_empty() && index_ops.difference(&model_ops).all(|o| model.recreated.contains(o));
       e.fail(
         "C01",
-        "utxo-set/mismatch",
+        if only_recreated { "utxo-set/spent-output-of-duplicate-txid-still-listed" } else { "utxo-set/mismatch" },
         format!("set of outputs with sat ranges differs from the BIP model at height {}: missing {missing:?} extra {extra:?}", height_next - 1),
       );
     }
@@ -695,7 +801,9 @@ fn audit(
     if got != want {
       let stale: Vec<_> = got.difference(&want).take(2).map(|(s, o)| format!("{}→{o}", hex::encode(s))).collect();
       let missing: Vec<_> = want.difference(&got).take(2).map(|(s, o)| format!("{}→{o}", hex::encode(s))).collect();
-      let class = if !stale.is_empty() && missing.is_empty() {
+      let class = if !stale.is_empty() && missing.is_empty() && got.difference(&want).all(|(_, o)| model.recreated.contains(o)) {
+        "address/spent-output-of-duplicate-txid-still-listed"
+      } else if !stale.is_empty() && missing.is_empty() {
         "address/stale-spent-output-listed"
       } else if stale.is_empty() {
         "address/unspent-output-missing"
@@ -716,9 +824,10 @@ fn audit(
         .map(|(o, _)| *o)
         .collect();
       if got_set != want || got.len() != got_set.len() {
+        let only_recreated = got.len() == got_set.len() && want.is_subset(&got_set) && got_set.difference(&want).all(|o| model.recreated.contains(o));
         e.fail(
           "C17",
-          "address/get_address_info-mismatch",
+          if only_recreated { "address/spent-output-of-duplicate-txid-still-listed/get_address_info" } else { "address/get_address_info-mismatch" },
           format!("get_address_info({address}) lists {} outputs, {} are unspent and pay to it", got.len(), want.len()),
         );
       }
@@ -765,6 +874,24 @@ pub fn run(ctx: &Ctx, property: &'static str) -> Report {
 
   if let Some(path) = &ctx.replay {
     let v: Value = serde_json::from_str(&std::fs::read_to_string(path).expect("read replay")).expect("json");
+    if let Some(name) = v["replay"]["dense"].as_str() {
+      let spec = DENSE.iter().find(|(n, _)| *n == name).expect("unknown dense history").1;
+      let rcfg = if v["replay"]["cfg"].as_str().is_some_and(|c| c.contains("-insc")) { IndexCfg { inscriptions: false, addresses: false, ..cfg.clone() } } else { cfg.clone() };
+      let mut w = Worker::new(0, 3);
+      let e = exec_mode(&mut w, &rcfg, 3, &dense_choices(spec), v["replay"]["batch"].as_bool().unwrap_or(false));
+      println!("replay history: {}", e.rendered);
+      for (p, c, what) in &e.violations {
+        println!("  [{p}] {c}: {what}");
+        if p == property {
+          report.violation(c.clone(), what.clone(), v["replay"].clone());
+        }
+      }
+      report.set("states", e.states.len().max(1) as u64);
+      report.set("transitions", e.blocks.max(1));
+      report.set("traces_validated_against_impl", 1u64);
+      report.sample(e.rendered);
+      return report;
+    }
     let choices: Choices = v["replay"]["choices"].as_array().unwrap().iter().map(|x| x.as_u64().unwrap() as u8).collect();
     let l = choices.len() / (SLOTS + 1);
     let mut w = Worker::new(0, l);
@@ -809,6 +936,10 @@ pub fn run(ctx: &Ctx, property: &'static str) -> Report {
     totals.capped |= t2.capped;
     totals.states.extend(t2.states);
   }
+  let cfgs: Vec<IndexCfg> = if property == "C17" { vec![cfg.clone()] } else { vec![cfg.clone(), IndexCfg { inscriptions: false, addresses: false, ..cfg.clone() }] };
+  let (dn, dstates) = run_dense(property, &cfgs, &mut report);
+  totals.executions += dn;
+  totals.states.extend(dstates);
   report.set("states", totals.states.len().max(1) as u64);
   report.set("traces_validated_against_impl", totals.executions);
   report.set("distinct_nontrivial", totals.states.len().max(2) as u64);
